@@ -41,7 +41,8 @@ MANIFEST = dict(
          'when the directory is created.',
 )
 
-IMPORTS = ['SV.SM.AtomicWriter', 'SV.SM.AtomicExit', 'SV.Gen.AtomicWriter_gen', 'Coq.Lists.List', 'Coq.Bool.Bool']
+IMPORTS = ['SV.SM.AtomicWriter', 'SV.SM.AtomicExit', 'SV.Gen.AtomicWriter_gen', 'Coq.Lists.List', 'Coq.Bool.Bool',
+           'Coq.Arith.PeanoNat']
 PRE = 'Import ListNotations.\n'
 
 OLD_TOK = 100      # File k had content [OLD_TOK + k] before
@@ -495,10 +496,17 @@ RES = {'ok': 0, 'exist': 1, 'noent': 2, 'fault': 3}
 
 
 def canon_events(ops: list[dict], nm: NameMap, wtok: Callable[[int, dict], int]) -> tuple[list[list[int]] | None, str]:
+    out, why, _ks = canon_events_k(ops, nm, wtok)
+    return out, why
+
+
+def canon_events_k(ops: list[dict], nm: NameMap, wtok: Callable[[int, dict], int]
+                   ) -> tuple[list[list[int]] | None, str, list[int]]:
     """Real operations of ONE writer -> model events [kind, i, arg, res]; None + reason if an operation is outside
     the model.  After the first failure or body exception, raw writes (flush retries inside close) are merged into
     the close that follows them."""
     out: list[list[int]] = []
+    ks: list[int] = []       # global number of the real operation each model event stands for
     broken = False       # a failure happened or the body raised
     pend_fault = False
     nwrite = 0
@@ -532,11 +540,12 @@ def canon_events(ops: list[dict], nm: NameMap, wtok: Callable[[int, dict], int])
         elif o['op'] == 'unlink' and ti is not None:
             ev = [5, ti, 0, RES[o['res']]]
         else:
-            return None, f"operation outside the model: {o['op']} {o['name']} {o.get('mode', '')}{o.get('dst', '')}"
+            return None, f"operation outside the model: {o['op']} {o['name']} {o.get('mode', '')}{o.get('dst', '')}", []
         if ev[3] == 3:
             broken = True
         out.append(ev)
-    return out, ''
+        ks.append(o['k'])
+    return out, '', ks
 
 
 def coq_scen(dest_idx: int, body: list[int], tail: list[int], raise_at: int | None) -> str:
@@ -625,6 +634,19 @@ def _single_scenario(ck0: Ck, work: Path, si: int, sc: dict, do_model: bool, cas
         if left:
             ck.violation(f'temp-left-after-{"body-exception" if raising else "success"}',
                          f'files {sorted(left)} left after a fault-free run', {'scenario': sc_json(sc)})
+        # the temp-name loop: attempts tmp_1, tmp_2, ... in order, stops at the least free index, creates only that one
+        opens = [(o['name'], o['res']) for o in ops0 if o['op'] == 'open']
+        if opens and not patho:
+            ddir = os.path.dirname(sc['dest'])
+            j = 1
+            while os.path.join(ddir, f'tmp_{j}') in init_names:
+                j += 1
+            exp_opens = [(os.path.join(ddir, f'tmp_{i}'), 'exist') for i in range(1, j)] + [(os.path.join(ddir, f'tmp_{j}'), 'ok')]
+            if opens != exp_opens:
+                ck.violation('temp-name-loop:not-the-least-free-index',
+                             f'open attempts {opens[:6]}{"..." if len(opens) > 6 else ""} (total {len(opens)}), expected '
+                             f'tmp_1..tmp_{j} with only the last one succeeding', replay_obj('fault', sc, k=0))
+            ck.hist('open_attempts', len(opens))
         if pre_fail and ops0:
             ck.violation('fs-operation-before-save-entered-the-writer',
                          f'BSP.save failed while rebuilding lumps but had already performed {[(o["op"], o["name"]) for o in ops0]}',
@@ -830,6 +852,13 @@ def scenarios(ck: Ck) -> list[dict]:
     add('unbuffered', chunks=c3, bufsize=1)
     add('small-buffer', chunks=c3 + [b'DDDDDDDD'], bufsize=6)
     add('stale-temp', chunks=c3, bufsize=1, init={'out.bin': OLD, 'tmp_1': b'STALE1', 'tmp_2': b'STALE2', 'keep.txt': b'k'})
+    many = 150 if is_big(ck) else 12
+    add(f'stale-temps-1-to-{many}', chunks=c3[:2], bufsize=1,
+        init={'out.bin': OLD, 'keep.txt': b'k', **{f'tmp_{i}': b'STALE%d' % i for i in range(1, many + 1)}})
+    add('stale-temps-with-gap', chunks=c3[:2], bufsize=8192,
+        init={'out.bin': OLD, 'tmp_1': b'S1', 'tmp_2': b'S2', 'tmp_4': b'S4', 'tmp_5': b'S5', 'tmp_03': b'not-a-temp-name'})
+    add('stale-temps-raise', chunks=c3, bufsize=1, raise_after=1,
+        init={'out.bin': OLD, **{f'tmp_{i}': b'STALE%d' % i for i in range(1, 7)}})
     add('new-file', chunks=c3, bufsize=6, init={'keep.txt': b'keep'})
     add('new-subdir', chunks=c3, dest='sub/dir/out.bin', init={'keep.txt': b'keep'})
     add('empty-body', chunks=[])
@@ -880,12 +909,13 @@ def bsp_scenarios(ck: Ck) -> list[dict]:
 
 
 # =============================================================================================== two writers
-def run_two(scs: tuple[dict, dict], root: str, prefix: list[int], init: dict[str, bytes]):
-    """Run two writers in threads under the schedule `prefix` (then: lowest unfinished writer first)."""
+def run_two(scs: tuple[dict, dict], root: str, prefix: list[int], init: dict[str, bytes], fault_at: int | None = None):
+    """Run two writers in threads under the schedule `prefix` (then: lowest unfinished writer first); `fault_at` = k
+    injects an OSError into the k-th file-system operation of the whole run (whoever performs it)."""
     shutil.rmtree(root, ignore_errors=True)
     populate(root, {'init': init})
     sched = Sched(2)
-    sim = FsSim(root, 1, None, None, sched)
+    sim = FsSim(root, 1, fault_at, None, sched)
     outcomes = ['ok', 'ok']
     executed: list[int] = []
     enabled: list[list[int]] = []
@@ -926,99 +956,162 @@ def run_two(scs: tuple[dict, dict], root: str, prefix: list[int], init: dict[str
     return dict(ops=sim.ops, outcomes=outcomes, executed=executed, enabled=enabled, listing=listing(root))
 
 
-def two_writer_campaign(ck: Ck, do_model: bool) -> None:
-    work = str(ck.scratch / 'c12_two')
-    big = is_big(ck)
-    pairs = [
-        # (tag, writer A, writer B, initial directory, schedule limit)
-        ('plain', dict(dest='a.bin', chunks=[b'A1']), dict(dest='b.bin', chunks=[b'B1']),
-         {'a.bin': b'OLDA', 'b.bin': b'OLDB', 'keep.txt': b'k'}, 5000),
-        ('stale+raise', dict(dest='a.bin', chunks=[b'A1']), dict(dest='b.bin', chunks=[b'B1', b'B2'], raise_after=1),
-         {'a.bin': b'OLDA', 'tmp_1': b'STALE1', 'keep.txt': b'k'}, 5000 if big else 200),
-    ]
-    if big:
-        pairs.append(('two-chunks', dict(dest='a.bin', chunks=[b'A1', b'A2']), dict(dest='b.bin', chunks=[b'B1', b'B2']),
-                      {'a.bin': b'OLDA', 'b.bin': b'OLDB', 'tmp_2': b'STALE2'}, 6000))
-    cases: list[dict] = []
-    for tag, sa, sb, init, limit in pairs:
-        nm = NameMap({'init': init, 'dest': sa['dest']}, dests=[sa['dest'], sb['dest']])
+class Pair:
+    """Two writers (scenario dicts) in one directory, with the token numbering / names the model cases need."""
+
+    def __init__(self, tag: str, sa: dict, sb: dict, init: dict[str, bytes]) -> None:
+        self.tag, self.sa, self.sb, self.init = tag, sa, sb, init
+        self.nm = NameMap({'init': init, 'dest': sa['dest']}, dests=[sa['dest'], sb['dest']])
         # token numbering: writer w's j-th chunk is token 10*(w+1)+j
         toks = [[10 * (w + 1) + j + 1 for j in range(len(s['chunks']) if s.get('raise_after') is None else s['raise_after'])]
                 for w, s in enumerate((sa, sb))]
-        wmap: dict[int, tuple[int, bytes]] = {}
+        self.wmap: dict[int, tuple[int, bytes]] = {}
         for w, s in enumerate((sa, sb)):
             off = 0
             for j, ch in enumerate(s['chunks']):
-                wmap[10 * (w + 1) + j + 1] = (off, ch)
+                self.wmap[10 * (w + 1) + j + 1] = (off, ch)
                 off += len(ch)
-        scen = [coq_scen(w, toks[w], [], s.get('raise_after')) for w, s in enumerate((sa, sb))]
-        new = [b''.join(s['chunks']) if s.get('raise_after') is None else init.get(s['dest']) for s in (sa, sb)]
-        stack: list[list[int]] = [[]]
+        self.scen = [coq_scen(w, toks[w], [], s.get('raise_after')) for w, s in enumerate((sa, sb))]
+        self.new = [b''.join(s['chunks']) if s.get('raise_after') is None else init.get(s['dest']) for s in (sa, sb)]
+        self.max_tmp = max([NameMap.tmp_index(b) or 0 for b in init] + [0]) + 3
+
+
+def two_check(ck: Ck, P: Pair, r: dict, fault_at: int | None, do_model: bool, cases: list[dict], how: str) -> None:
+    """Oracle on one executed two-writer run (possibly with one injected OSError) + its model case."""
+    sa, sb, init, nm = P.sa, P.sb, P.init, P.nm
+    lst = r['listing']
+    ex = r['executed']
+    hit = [o for o in r['ops'] if o['res'] == 'fault']
+    fw = hit[0]['w'] if hit else None            # the writer that got the OSError
+    rp = replay_obj('two', dict(kind=P.tag, init=init, dest=sa['dest']), a=_hexsc(sa), b=_hexsc(sb), schedule=ex,
+                    **({'fault_at': fault_at} if fault_at is not None else {}))
+    sfx = '-with-fault' if hit else ''
+    for w, s in enumerate((sa, sb)):
+        exp_out = 'ok' if s.get('raise_after') is None else 'body'
+        if w == fw:
+            if r['outcomes'][w] == 'ok' or r['outcomes'][w].startswith('other'):
+                ck.violation('two-writers:unexpected-outcome-with-fault',
+                             f'writer {w} got an OSError in {hit[0]["op"]} but ended with {r["outcomes"][w]}', rp)
+            if lst.get(s['dest']) != init.get(s['dest']):
+                ck.violation('two-writers:dest-changed-after-fault',
+                             f'writer {w} failed ({hit[0]["op"]}) but {s["dest"]} holds {lst.get(s["dest"])!r:.40}', rp)
+            continue
+        if r['outcomes'][w] != exp_out:
+            ck.violation('two-writers:unexpected-outcome' + sfx, f'writer {w} ended with {r["outcomes"][w]}', rp)
+        if lst.get(s['dest']) != P.new[w]:
+            ck.violation('two-writers:destination-clobbered' + sfx, f'{s["dest"]} holds {lst.get(s["dest"])!r:.40}, '
+                         f'expected {P.new[w]!r:.40}', rp)
+    extra = set(lst) - set(init) - {sa['dest'], sb['dest']}
+    if extra and not (hit and hit[0]['op'] == 'unlink'):
+        ck.violation('two-writers:temp-left' + sfx, f'{sorted(extra)} left', rp)
+    for n0, v0 in init.items():
+        if n0 not in (sa['dest'], sb['dest']) and lst.get(n0) != v0:
+            ck.violation('two-writers:foreign-file-touched' + sfx, f'{n0} changed', rp)
+    # temp names held at the same time must differ
+    held: dict[int, str] = {}
+    for o in r['ops']:
+        if o['op'] == 'open' and o['res'] == 'ok':
+            if o['name'] in held.values():
+                ck.violation('two-writers:same-temp-name', f'{o["name"]} opened by both writers', rp)
+            held[o['w']] = o['name']
+        elif o['op'] in ('replace', 'unlink') and o['res'] == 'ok':
+            held.pop(o['w'], None)
+    if not do_model:
+        return
+    # ---- model case: canonicalise each writer's operations (merging as for one writer), then order by time
+    merged: list[tuple[int, int, list[int]]] = []
+    okc = True
+    for w in (0, 1):
+        def wtok(n: int, oo: dict, w: int = w) -> int:
+            t = 10 * (w + 1) + n
+            return t if P.wmap.get(t) == (oo['off'], oo['data']) else 0
+        evs, _why, ks = canon_events_k([o for o in r['ops'] if o['w'] == w], nm, wtok)
+        if evs is None:
+            okc = False
+            break
+        merged += [(k, w, e) for k, e in zip(ks, evs)]
+    merged.sort()
+    sched = coq_list(f'({"true" if w else "false"}, {"true" if e[3] == 3 else "false"})' for _k, w, e in merged)
+    coq = (f'corr_case2_t aw_proto {nm.coq_init()} {P.scen[0]} {P.scen[1]} {sched} '
+           f'{coq_list(nm.probe_names(P.max_tmp))}')
+    cases.append(dict(coq=coq, events=[[w] + e for _k, w, e in merged] if okc else None, listing=lst, nm=nm,
+                      wmap=P.wmap, max_tmp=P.max_tmp, what={'run': how, 'pair': P.tag, 'schedule': ex, 'fault_at': fault_at},
+                      committed=[x == 'ok' for x in r['outcomes']], cleanup_fault=bool(hit and hit[0]['op'] == 'unlink')))
+
+
+def two_writer_campaign(ck: Ck, do_model: bool) -> None:
+    work = str(ck.scratch / 'c12_two')
+    big = is_big(ck)
+    A1 = dict(dest='a.bin', chunks=[b'A1'])
+    pairs = [
+        # (pair, limit of the exhaustive DFS over schedules; 0 = only boundary pairs)
+        (Pair('plain', A1, dict(dest='b.bin', chunks=[b'B1']), {'a.bin': b'OLDA', 'b.bin': b'OLDB', 'keep.txt': b'k'}), 5000),
+        (Pair('stale+raise', A1, dict(dest='b.bin', chunks=[b'B1', b'B2'], raise_after=1),
+              {'a.bin': b'OLDA', 'tmp_1': b'STALE1', 'keep.txt': b'k'}), 5000 if big else 120),
+        (Pair('two-chunks', dict(dest='a.bin', chunks=[b'A1', b'A2']), dict(dest='b.bin', chunks=[b'B1', b'B2']),
+              {'a.bin': b'OLDA', 'b.bin': b'OLDB', 'tmp_2': b'STALE2'}), 6000 if big else 0),
+        (Pair('fresh+stale-gap', dict(dest='a.bin', chunks=[b'A1', b'A2', b'A3']), dict(dest='b.bin', chunks=[]),
+              {'tmp_1': b'S1', 'tmp_3': b'S3', 'keep.txt': b'k'}), 0),
+        (Pair('both-raise', dict(dest='a.bin', chunks=[b'A1', b'A2'], raise_after=2), dict(dest='b.bin', chunks=[b'B1'], raise_after=0),
+              {'a.bin': b'OLDA', 'b.bin': b'OLDB'}), 0),
+    ]
+    cases: list[dict] = []
+    for P, limit in pairs:
+        tag = P.tag
+        seen_sched: set[tuple[int, ...]] = set()
+        # ---- every interleaving (DFS over schedules), up to `limit` runs
+        stack: list[list[int]] = [[]] if limit else []
         nrun = 0
         while stack and nrun < limit:
             prefix = stack.pop()
-            r = run_two((sa, sb), work, prefix, init)
+            r = run_two((P.sa, P.sb), work, prefix, P.init)
             nrun += 1
             ck.count('interleavings_executed')
             ex = r['executed']
+            seen_sched.add(tuple(ex))
             ck.seen(('two', tag, tuple(ex)))
             ck.hist('interleaving_len', len(ex))
             for j in range(len(prefix), len(ex)):
                 other = 1 - ex[j]
                 if other in r['enabled'][j]:
                     stack.append(ex[:j] + [other])
-            # ---- oracle
-            lst = r['listing']
-            rp = replay_obj('two', dict(kind=tag, init=init, dest=sa['dest']), a=_hexsc(sa), b=_hexsc(sb), schedule=ex)
-            for w, s in enumerate((sa, sb)):
-                exp_out = 'ok' if s.get('raise_after') is None else 'body'
-                if r['outcomes'][w] != exp_out:
-                    ck.violation(f'two-writers:unexpected-outcome', f'writer {w} ended with {r["outcomes"][w]}', rp)
-                if lst.get(s['dest']) != new[w]:
-                    ck.violation('two-writers:destination-clobbered', f'{s["dest"]} holds {lst.get(s["dest"])!r:.40}, '
-                                 f'expected {new[w]!r:.40}', rp)
-            extra = set(lst) - set(init) - {sa['dest'], sb['dest']}
-            if extra:
-                ck.violation('two-writers:temp-left', f'{sorted(extra)} left', rp)
-            for n0, v0 in init.items():
-                if n0 not in (sa['dest'], sb['dest']) and lst.get(n0) != v0:
-                    ck.violation('two-writers:foreign-file-touched', f'{n0} changed', rp)
-            # temp names held at the same time must differ
-            held: dict[int, str] = {}
-            for o in r['ops']:
-                if o['op'] == 'open' and o['res'] == 'ok':
-                    if o['name'] in held.values():
-                        ck.violation('two-writers:same-temp-name', f'{o["name"]} opened by both writers', rp)
-                    held[o['w']] = o['name']
-                elif o['op'] in ('replace', 'unlink') and o['res'] == 'ok':
-                    held.pop(o['w'], None)
-            # ---- model case
-            if do_model:
-                evs = []
-                okc = True
-                cnt = [0, 0]
-                for o in r['ops']:
-                    w = o['w']
-
-                    def wtok(n: int, oo: dict, w=w) -> int:
-                        t = 10 * (w + 1) + n
-                        return t if wmap.get(t) == (oo['off'], oo['data']) else 0
-                    # canonicalise this single op in the context of its writer (no faults here: no merging needed
-                    # except flush writes after a body exception, which bufsize=1 excludes)
-                    if o['op'] == 'write':
-                        cnt[w] += 1
-                    e, why = canon_events([o], nm, lambda n, oo, w=w: wtok(cnt[w], oo))
-                    if e is None:
-                        okc = False
-                        break
-                    evs.append([w] + e[0])
-                max_tmp = 4
-                coq = (f'corr_case2_t aw_proto {nm.coq_init()} {scen[0]} {scen[1]} '
-                       f'{coq_list(f"({"true" if w else "false"}, false)" for w in ex)} {coq_list(nm.probe_names(max_tmp))}')
-                cases.append(dict(coq=coq, events=evs if okc else None, listing=lst, nm=nm, wmap=wmap, max_tmp=max_tmp,
-                                  what={'run': 'two writers', 'pair': tag, 'schedule': ex},
-                                  committed=[x == 'ok' for x in r['outcomes']]))
-        ck.extra.setdefault('interleavings', {})[tag] = {'executed': nrun, 'exhaustive': not stack}
+            two_check(ck, P, r, None, do_model, cases, 'two writers, DFS over schedules')
+        exhaustive = bool(limit) and not stack
+        # ---- every pair of operation boundaries: writer A has completed k1 operations and writer B k2, reached both
+        # as A^k1 B^k2 and as B^k2 A^k1 (then the rest sequentially); redundant when the DFS was exhaustive
+        seq = run_two((P.sa, P.sb), work, [], P.init)
+        n1 = sum(1 for w in seq['executed'] if w == 0)
+        n2 = sum(1 for w in seq['executed'] if w == 1)
+        npairs = 0
+        if not exhaustive:
+            for k1 in range(n1 + 1):
+                for k2 in range(n2 + 1):
+                    for prefix in ([0] * k1 + [1] * k2, [1] * k2 + [0] * k1):
+                        r = run_two((P.sa, P.sb), work, prefix + [1, 0] * 3, P.init)
+                        if tuple(r['executed']) in seen_sched:
+                            continue
+                        seen_sched.add(tuple(r['executed']))
+                        ck.count('boundary_pair_runs')
+                        ck.seen(('two-bp', tag, tuple(r['executed'])))
+                        two_check(ck, P, r, None, do_model, cases, f'two writers, boundary pair ({k1},{k2})')
+                    npairs += 1
+        # ---- one injected OSError at every operation of some schedules (sequential both ways, alternating, random)
+        nfault = 0
+        scheds = [[], [1] * 40, [0, 1] * 20, [1, 0] * 20] + [[ck.rng.randrange(2) for _ in range(40)]
+                                                            for _ in range(budget(ck, 2, 8))]
+        for sc_i, prefix in enumerate(scheds if (limit or big) else scheds[:3]):
+            n_ops = len(run_two((P.sa, P.sb), work, prefix, P.init)['ops'])
+            for k in range(1, n_ops + 1):
+                r = run_two((P.sa, P.sb), work, prefix, P.init, fault_at=k)
+                if not any(o['res'] == 'fault' for o in r['ops']):
+                    continue            # not an injectable operation (mkdir of an existing directory)
+                nfault += 1
+                ck.count('two_writer_fault_runs')
+                ck.seen(('two-fault', tag, sc_i, k))
+                ck.hist('two_writer_fault_op', next(o['op'] for o in r['ops'] if o['res'] == 'fault'))
+                two_check(ck, P, r, k, do_model, cases, f'two writers, OSError at operation {k}')
+        ck.extra.setdefault('interleavings', {})[tag] = {
+            'executed': nrun, 'exhaustive': exhaustive, 'boundary_pairs': npairs, 'ops': [n1, n2], 'fault_runs': nfault}
     if do_model and cases:
         eval_cases2(ck, cases)
 
@@ -1049,8 +1142,14 @@ def eval_cases2(ck: Ck, cases: list[dict]) -> None:
             if [(pc1[0] == 1), (pc2[0] == 1)] != c['committed'] or [(pc1[2] == 0), (pc2[2] == 0)] != c['committed']:
                 diffs.append({'model_pcs': [pc1, pc2], 'real_returned_normally': c['committed']})
             for b, enc in zip(nm.probe_bases(c['max_tmp']), probes):
-                exp = nm.expect_bytes(opt_content(enc), c['wmap'])
+                toks = opt_content(enc)
                 real = c['listing'].get(b)
+                if c.get('cleanup_fault') and NameMap.tmp_index(b) is not None and b not in nm.init:
+                    # a temp file left by a failing cleanup unlink: presence is compared, its (partial) bytes are not
+                    if (toks is None) != (real is None):
+                        diffs.append({'name': b, 'model_present': toks is not None, 'real_present': real is not None})
+                    continue
+                exp = nm.expect_bytes(toks, c['wmap'])
                 if exp != real:
                     diffs.append({'name': b, 'model': repr(exp)[:60], 'real': repr(real)[:60]})
             if diffs:
@@ -1116,6 +1215,11 @@ def run(ck: Ck) -> None:
             'exit_never_swallows_an_exception': f'propagates ({ok2}) false && propagates ({fl2}) true',
             'exit_success_returns_normally': f'ok_path_returns ({ok2})',
             'temp_is_sibling_of_destination': 'aw_tmp_sibling',
+            # the temp-name loop (c12_open_loop_least_free / c12_temp_index_bounded speak about this loop)
+            'temp_loop_starts_at_1_and_is_unbounded': 'Nat.eqb aw_loop_start 1 && aw_loop_unbounded',
+            'temp_loop_name_is_tmp_index': 'aw_loop_template_ok',
+            'temp_loop_retries_only_on_file_exists': 'aw_loop_handler_inert && aw_loop_break_after_open',
+            'temp_loop_never_uses_the_destination': 'aw_loop_skips_destination',
             'bsp_module_never_modifies_files_directly': 'match bsp_fs_write_sites with nil => true | _ => false end',
             'bsp_save_writes_only_through_the_handle': 'forallb snd bsp_save_writes',
             'bsp_save_handle_is_binary': 'bsp_save_handle_is_bytes',
@@ -1180,6 +1284,9 @@ def _campaigns(ck: Ck, built: bool) -> None:
         (bool(keys), ['correspondence:']),
         (temp_left or dest_bad or swallowed or 'temp-file-outside-destination-directory' in keys, ['translate:']),
         ('temp-file-outside-destination-directory' in keys, ['instance:temp_is_sibling_of_destination']),
+        ('dest-named-like-temp-file' in keys, ['instance:temp_loop_never_uses_the_destination']),
+        (any(k.startswith(('temp-name-loop', 'unexpected-outcome', 'two-writers:', 'foreign-file')) for k in keys),
+         ['instance:temp_loop_']),
         (bool(ck.extra.get('bsp_violations')), ['instance:bsp_', 'translate:']),
     ]
     for cond, names in table:
@@ -1229,7 +1336,7 @@ def replay(data: dict) -> int:
             for s in (sa, sb):
                 s['chunks'] = [bytes.fromhex(c) for c in s['chunks']]
             init = {n: bytes.fromhex(v) for n, v in r['scenario']['init'].items()}
-            res = run_two((sa, sb), os.path.join(root, 'd'), r['schedule'], init)
+            res = run_two((sa, sb), os.path.join(root, 'd'), r['schedule'], init, fault_at=r.get('fault_at'))
             print('operations:', [(o['w'], o['op'], o['name'], o['res']) for o in res['ops']])
             print('outcomes:', res['outcomes'])
             print('after :', res['listing'])
